@@ -666,7 +666,7 @@ def main():
         if os.path.exists(corpus):
             for c in json.load(open(corpus)):
                 items.append(("spec", c["spec"]))
-        nfr = int(os.environ.get("VERIF_N") or run.n(240, 4000))
+        nfr = int(os.environ.get("VERIF_N") or run.n(240, 6000))
         classes = ["short"] * 25 + ["small"] * 46 + ["medium"] * 23 + ["large"] * 5 + ["huge"] * 1
         for k in range(nfr):
             sc = classes[k % 100] if run.quick() else run.rng.choice(classes)
